@@ -5,7 +5,6 @@ package main
 // (check_bce debug output, sites joined on the '[' position) or (2) LinBounds.
 
 import (
-	"time"
 	"bufio"
 	"fmt"
 	"go/token"
@@ -17,6 +16,7 @@ import (
 	"sort"
 	"strconv"
 	"strings"
+	"time"
 
 	"golang.org/x/tools/go/ssa"
 )
